@@ -13,6 +13,7 @@ BAD = 99999999
 
 
 XPAT = [-1]
+OFFMAG = [-1]
 
 
 def run_case(darsia, rng, tid, cfg, nextra, rgb, dtype, shape, probe_is_base):
@@ -43,8 +44,12 @@ def run_case(darsia, rng, tid, cfg, nextra, rgb, dtype, shape, probe_is_base):
     full = tuple(shape) + ((3,) if rgb else ())
     scale = {"float64": 1, "float32": 1, "uint8": 255, "uint16": 65535}[dtype]
 
+    # (float images in raw counts of order 1e6 every third time: the analysis works on differences, whatever the common level)
+    OFFMAG[0] += 1
+    level = 1000000 if (dtype == "float64" and OFFMAG[0] % 3 == 1) else 0
+
     def arr():
-        return np.array([rng.randint(0, 3) for _ in range(int(np.prod(full)))]).reshape(full).astype(dtype)
+        return (np.array([rng.randint(0, 3) for _ in range(int(np.prod(full)))]).reshape(full) + level).astype(dtype)
 
     def image(a):
         # (images of an experiment: named, placed, dated relative to the start of the experiment)
